@@ -185,7 +185,14 @@ func (g *sg) body(depth int, fnBody bool) {
 			// the declaration is hoisted to the start of its scope: some calls are written BEFORE the
 			// declaration's text (everything the body can see is declared and initialised before that point
 			// too; no earlier reference in this scope uses the name — see passed)
+			// While the body of such an early-called function is written, its own name is not assignable:
+			// keep-names writes `__name(f, "f")` AFTER the declaration's text, so `f(); function f() { f = "A" }`
+			// ends in `__name("A", "f")` (TypeError: Object.defineProperty called on non-object) — a change of
+			// behaviour by keep-names that exists without any renaming and in which every reference still binds
+			// correctly, i.e. not what this property states (reported separately, not a C15 finding).
 			early := g.chance(30, "callbefore")
+			ownIdx := len(g.scopes[len(g.scopes)-2]) - 1
+			g.scopes[len(g.scopes)-2][ownIdx].constant = early
 			outer := g.sb
 			g.sb = &strings.Builder{}
 			g.w("function %s(%s) { ", name, p1)
@@ -194,6 +201,7 @@ func (g *sg) body(depth int, fnBody bool) {
 			g.fnDepth--
 			g.w("} ")
 			g.pop()
+			g.scopes[len(g.scopes)-1][ownIdx].constant = false
 			text := g.sb.String()
 			g.sb = outer
 			if early {
@@ -541,7 +549,7 @@ func genFile(rt *rapid.T, file int, depth int, eval, with, props bool) (string, 
 }
 
 func runSingle(t *testing.T) {
-	H.Rule("single", "rapid: one file of nested scopes (functions with default-parameter closures, arrows, blocks, for-let with captured closures, catch bindings, classes, named function expression self-bindings, labels spelled like variables, deferred closures, direct eval and with in sloppy files, mangle-able properties) whose declared names come from a pool built to collide (the minifier's first names a b e t n r i o $ _, numbered suffixes x2 _a, free globals with the same spellings defined by the host); every declaration holds a unique value, every reference is logged; a declaration written in the middle of a scope (function — sometimes called before its text —, class, const closure) never takes a name that an earlier reference lying in that scope resolved further out: it would capture that reference (temporal dead zone; an earlier assignment becomes an assignment to a constant, which esbuild documents as a build error when bundling, not a renaming matter), so the generator's scope model would no longer describe the program × format {none, iife, cjs, esm} × minify-identifiers / full minify / keep-names × mangle-props with and without a supplied cache. Oracle: V8 is the resolver — trace of the source == trace of the renamed output; for wrapper-less scripts the top-level names are read back from the global object; mangle cache is a bijection containing the supplied cache. Non-trivial = ≥4 events and the output differs from the input")
+	H.Rule("single", "rapid: one file of nested scopes (functions with default-parameter closures, arrows, blocks, for-let with captured closures, catch bindings, classes, named function expression self-bindings, labels spelled like variables, deferred closures, direct eval and with in sloppy files, mangle-able properties) whose declared names come from a pool built to collide (the minifier's first names a b e t n r i o $ _, numbered suffixes x2 _a, free globals with the same spellings defined by the host); every declaration holds a unique value, every reference is logged; a declaration written in the middle of a scope (function — sometimes called before its text, and then not assigning to its own name: keep-names puts `__name(f, \"f\")` after the text, which throws on the reassigned value although every reference binds correctly —, class, const closure) never takes a name that an earlier reference lying in that scope resolved further out: it would capture that reference (temporal dead zone; an earlier assignment becomes an assignment to a constant, which esbuild documents as a build error when bundling, not a renaming matter), so the generator's scope model would no longer describe the program × format {none, iife, cjs, esm} × minify-identifiers / full minify / keep-names × mangle-props with and without a supplied cache. Oracle: V8 is the resolver — trace of the source == trace of the renamed output; for wrapper-less scripts the top-level names are read back from the global object; mangle cache is a bijection containing the supplied cache. Non-trivial = ≥4 events and the output differs from the input")
 	H.SetupRapid("single", H.N(8000, 300000))
 	rapid.Check(t, func(rt *rapid.T) {
 		c := Case{}
@@ -573,7 +581,7 @@ func runSingle(t *testing.T) {
 }
 
 func runBundle(t *testing.T) {
-	H.Rule("bundle", "rapid: 2–4 files with identical top-level names (each file declares the same pool names and a function shared<i> that the entry imports and calls) bundled into one scope × format × minify; reference = a hand-written linker that gives every file its own function scope (no renaming needed); oracle: identical traces")
+	H.Rule("bundle", "rapid: 2–4 files with identical top-level names (each file declares the same pool names and a function shared<i> that the entry imports and calls) bundled into one scope × format × minify; files come from the generator of `single` and obey its rule that a declaration in the middle of a scope never captures an earlier reference (otherwise `x = …; const x = …` appears, which esbuild refuses when bundling — \"Cannot assign to x because it is a constant\", documented behaviour that has nothing to do with renaming — even in code the reference run never reaches); reference = a hand-written linker that gives every file its own function scope (no renaming needed); oracle: identical traces")
 	H.SetupRapid("bundle", H.N(4000, 150000))
 	rapid.Check(t, func(rt *rapid.T) {
 		n := rapid.IntRange(2, 4).Draw(rt, "nfiles")
